@@ -6,7 +6,7 @@ P = {k: v for k, v in json.load(open(os.path.join(HERE, 'contracts', 'properties
 TEXT = {
  'C01': 'Verus proves, for every configuration, size, engine and history, that decode returns exactly the reference erasure decoding dec_*_ref of what was given (R-layer). That dec_*_ref inverts the code (M3) is not mechanised: bounded native enumeration of all sufficient subsets.',
  'C02': 'Verus proves encode == enc_high_ref / enc_low_ref / rule-selected (FFT/IFFT formula over GF(2^16) from first principles) for all inputs and histories. Equality of that formula with the scaled Cauchy matrix (M2) is bounded: independent closed-form oracle.',
- 'C03': 'One Engine trait contract against one reference spec; every engine implementation (schedules of Naive, NoSimd, Ssse3, Avx2, DefaultEngine) is verified against it, so they agree wherever the contract defines the output. SIMD leaf kernels are assumed and compared natively on all pairs.',
+ 'C03': 'One Engine trait contract against one reference spec; every engine implementation (Naive, NoSimd, Ssse3, Avx2, DefaultEngine - schedules and leaf kernels) is verified against it, so they agree wherever the contract defines the output. The x86 intrinsics are an assumed byte-wise model, cross-checked natively on all (symbol, log_m) pairs; Neon is not reachable on this host.',
  'C04': 'Byte placement (insert / undo / accessors) and slot independence (truncation commutes with every transform) are proved; sizes are unbounded in the proof.',
  'C05': 'Every result is proved equal to a function of the configuration and the shards added this round (orig_sv / received positions only); stale work memory is universally quantified in the proof.',
  'C06': 'Exact error values, Ok on valid use and absence of panics (overflow, index, assert!, unreachable!) are proof obligations of every public function.',
@@ -16,9 +16,9 @@ TEXT = {
  'C10': 'lib::encode / lib::decode proved equal to the fold of the streaming contracts in call order (errors exact). Collection tails are assumed helpers, covered by a bounded differential.',
  'C11': 'Decoder bookkeeping is over sets of indexes; dec_spec reads received positions only (lemma); surplus-set equality is a corollary of the unmechanised M3 (bounded).',
  'C12': 'Accessors, iterators and Drop against the work-space view, for all indexes.',
- 'C13': 'Additivity and zero proved by induction over layers and chunks on top of encode == enc_*_ref; scalar multiples bounded (native, independent field arithmetic).',
+ 'C13': 'Additivity, zero and scalar multiples (homogeneity: right-multiplications of the shift-xor field commute) of enc_high_ref / enc_low_ref proved by induction over layers and chunks, on top of the proved encode == enc_*_ref; every engine kernel is proved to be xor / multiplication by a data-independent constant.',
  'C14': 'target_feature entry points require cpu_has(f); DefaultEngine::new / eval_poly proved to call them only under the detection result and to pick the best reported ISA.',
- 'C15': 'Primitives proved equal to their reference networks (butterflies, WHT, formal derivative, mod-65535 arithmetic) over a field defined from 0x1002D and the Cantor basis; exp/log, mul16, mul128 and log_walsh initialisers proved equal to their definitions (x primitive, pigeonhole, Cantor inverse mechanised); skew assumed + exhaustive native check; closed forms (M1, M4) bounded.',
+ 'C15': 'Primitives proved equal to their reference networks (butterflies, WHT, formal derivative, mod-65535 arithmetic) over a field defined from 0x1002D and the Cantor basis; ifft_ref proved the exact inverse of fft_ref; all five table initialisers proved equal to their definitions (x primitive, pigeonhole, Cantor inverse mechanised); AVX2/SSSE3 kernels proved over a byte-wise model of the intrinsics; closed forms (M1, M4, skew closed form) bounded.',
  'C17': 'Allocation is not observable by the verifiers: proxy (work buffer identity, proved) plus a counting allocator natively (bounded).',
 }
 checks = []
